@@ -124,8 +124,12 @@ EndEv ==
          structural == sc.spec /\ ~AnyUnk(gr)
          refok == structural /\ AgreesWithSpec(sc, gr, ref)
          engok == AgreesWithSpec(sc, gr, eng)
-         v1 == IF cmpok.equal THEN {} ELSE {<<sc.id, "EngEqualsRef", cmpok.what \o ":" \o cmpok.shape>>}
-         v2 == IF refok /\ ~engok THEN {<<sc.id, "EngEqualsSpec", "">>} ELSE {}
+         \* the detail names the reasons for which the reference fails the query (all error steps)
+         RECURSIVE Cat(_)
+         Cat(q) == IF Len(q) = 0 THEN "" ELSE IF Len(q) = 1 THEN q[1] ELSE q[1] \o "," \o Cat(Tail(q))
+         whytxt == IF structural THEN "why=" \o Cat(SetToSortSeq(Whys(gr), LAMBDA a, b : TRUE)) ELSE "why=?"
+         v2 == IF refok /\ ~engok THEN {<<sc.id, "EngEqualsSpec", whytxt>>} ELSE {}
+         v1 == IF cmpok.equal THEN {} ELSE {<<sc.id, "EngEqualsRef", cmpok.what \o ":" \o cmpok.shape \o " " \o whytxt>>}
          v3 == IF eng.err = "" THEN {<<sc.id, c, "">> : c \in WFClauses(sc, eng)} ELSE {}
      IN IF ~done THEN UNCHANGED <<viol, stat, calib>>
         ELSE /\ viol' = viol \cup v1 \cup v2 \cup v3
